@@ -28,7 +28,8 @@ Idempotent ==
     Part = "detrend" => Res(Res(c.x, c.p), c.p) = [i \in 1..Len(c.x) |-> Sc(c.x, c.p) * Res(c.x, c.p)[i]]
 
 (* ---------------- band RMS ---------------- *)
-Grids == {<<1, 2, 4, 7, 8>>, <<2, 3, 5>>, <<1, 4>>, <<3>>, <<1, 2, 3, 4, 5, 6>>}
+Grids == {<<1, 2, 4, 7, 8>>, <<2, 3, 5>>, <<1, 4>>, <<3>>, <<1, 2, 3, 4, 5, 6>>,
+          <<1, 2, 4, 4, 7>>, <<2, 2, 5>>}        \* a frequency listed twice with different ASD (two spectra stitched at a junction): a zero-width trapezoid
 Asd2(n) == [i \in 1..n |-> ((i * 7) % 5) + 1]                   \* integer ASD^2 values
 (* twice the trapezoid integral of v over the grid points of f inside [lo2/2, hi2/2] (band ends in half units) *)
 Inside(f, lo2, hi2) == {i \in 1..Len(f) : 2 * f[i] >= lo2 /\ 2 * f[i] <= hi2}
